@@ -11,7 +11,10 @@ Three groups of cases:
                   exactly (implementation vs implementation), plus implementation vs model where the
                   base model has the smoother.  Round 2: make_solver, deflated_solver, schur / cpr / cpr_drs
                   with ILU(0) inside, make_block_solver, shared_ptr entry points over zero-copy views
-                  (drv_pcorder3), run-time wrapper (drv_pcorder_rt, double, bitwise).
+                  (drv_pcorder3), run-time wrapper (drv_pcorder_rt, double, bitwise).  Round 2b: the entry points that
+                  take a user matrix AFTER construction -- amg::rebuild(const Matrix&) (also through make_solver::precond()
+                  and runtime::preconditioner::rebuild), cpr / cpr_drs::partial_update -- with ILU(0) / skyline LU behind
+                  them (drv_pcorder4; theorem C17_amg_rebuild_entry_order_independent).
   I  index types: column indices / counts at the edge of each index type (drv_adapters_idx).
   VT value types: scaled_problem over complex / Eigen-block / static_matrix-block values (drv_adapters_vt*)
                   vs Adapters.scaled_adapter at the ComplexS / BlockS instances (model driver blockspmv).
@@ -23,7 +26,7 @@ import gen
 from props.common import diff_run, oracle_run, account
 from props import vtmodel
 
-DRIVERS = ["adapters", "adapters_asan", "adapters3p", "pcorder", "pcorder2", "pcorder3", "pcorder_rt",
+DRIVERS = ["adapters", "adapters_asan", "adapters3p", "pcorder", "pcorder2", "pcorder3", "pcorder4", "pcorder_rt",
            "adapters_vt", "adapters_vteig", "adapters_idx"]
 EXTRA_FLAGS = {"adapters_asan": ["-fsanitize=address", "-fno-omit-frame-pointer", "-g"],
                "adapters3p": ["-I/usr/include/eigen3"], "adapters_vteig": ["-I/usr/include/eigen3"]}
@@ -36,7 +39,7 @@ ASSUMPTIONS = [
     "value types: std::complex<double>, Eigen / static_matrix blocks run in double on dyadic data (every operation exact) against the model at the ComplexS / BlockS instances",
     "run-time preconditioner wrapper: double build, shuffled vs sorted listings must give bit-identical operators (one thread)",
 ]
-TRUSTED_BASE = ["harness/drv_adapters.cpp, drv_adapters3p.cpp, drv_adapters_vt.cpp (+ Eigen build), drv_adapters_idx.cpp, drv_pcorder.cpp, drv_pcorder2.cpp, drv_pcorder3.cpp, drv_pcorder_rt.cpp; ocaml/adapters/ops_adapters.ml, ocaml/blockspmv/ops_blockspmv.ml (second extracted model driver: Extract_blockspmv.v)",
+TRUSTED_BASE = ["harness/drv_adapters.cpp, drv_adapters3p.cpp, drv_adapters_vt.cpp (+ Eigen build), drv_adapters_idx.cpp, drv_pcorder.cpp, drv_pcorder2.cpp, drv_pcorder3.cpp, drv_pcorder4.cpp, drv_pcorder_rt.cpp; ocaml/adapters/ops_adapters.ml, ocaml/blockspmv/ops_blockspmv.ml (second extracted model driver: Extract_blockspmv.v)",
                 "AddressSanitizer (g++ -fsanitize=address) for the zero-copy cases"]
 RULE = ("cases derived from VERIF_SEED by tools/props/C17.py; distinct = distinct case payload; non-trivial = "
         "implementation output contains a non-zero value and is not an exception")
@@ -48,14 +51,20 @@ PC2_KINDS = ["cpr", "cpr_drs", "schur", "schur_adj2", "schur_adj0", "schur_amg"]
 # round 2: the remaining classes that accept a user matrix, each with the order-SENSITIVE ILU(0) inside
 PC3_KINDS = ["ms_amg_ilu0", "ms_asp_ilu0", "defl_asp_ilu0", "defl_amg_ilu0", "schur_ilu0", "schur_amg_ilu0",
              "cpr_ilu0", "cpr_drs_ilu0", "mbs_amg_ilu0", "mbs_asp_ilu0", "asp_zc_ilu0", "cpr_zc_ilu0"]
+# round 2b: entry points that accept a user matrix AFTER construction (rebuild / partial_update), ILU(0) or skyline LU inside
+PC4_KINDS = ["rb_amg_ilu0", "rb_amg_direct", "rb_amg_chain", "rb_ms_amg_ilu0", "pu_cpr_ilu0_t", "pu_cpr_ilu0_f",
+             "pu_cpr_drs_ilu0_t", "pu_cpr_drs_ilu0_f"]
 # run-time wrapper (double, dyadic data, bitwise comparison): class x relaxation
-RT_CLASSES = ["amg", "relaxation", "dummy", "nested", "ms_amg", "ms_relaxation"]
+RT_CLASSES = ["amg", "relaxation", "dummy", "nested", "ms_amg", "ms_relaxation", "rb_amg", "rb_ms_amg"]
 RT_RELAX = ["ilu0", "iluk", "ilup", "ilut", "spai0", "spai1", "gauss_seidel", "damped_jacobi", "chebyshev"]
-DRV_OF_OP = {"pc": "pcorder", "pc2": "pcorder2", "pc3": "pcorder3", "pcrt": "pcorder_rt"}
+DRV_OF_OP = {"pc": "pcorder", "pc2": "pcorder2", "pc3": "pcorder3", "pc4": "pcorder4", "pcrt": "pcorder_rt"}
 SITE = {"asp": "relaxation::as_preconditioner", "amg": "amg", "amg_zc": "amg(shared_ptr) via adapter::zero_copy",
         "cpr": "preconditioner::cpr", "cpr_drs": "preconditioner::cpr_drs",
         "schur": "preconditioner::schur_pressure_correction", "dummy": "preconditioner::dummy",
-        "mbs": "make_block_solver", "ms": "make_solver", "defl": "deflated_solver", "rt": "runtime::preconditioner"}
+        "mbs": "make_block_solver", "ms": "make_solver", "defl": "deflated_solver", "rt": "runtime::preconditioner",
+        "rb_amg": "amg::rebuild(const Matrix&)", "rb_ms": "make_solver::precond().rebuild(const Matrix&)",
+        "pu_cpr": "preconditioner::cpr::partial_update", "pu_cpr_drs": "preconditioner::cpr_drs::partial_update",
+        "rt_rb": "runtime::preconditioner::rebuild"}
 
 
 def perm_of(r, n):
@@ -231,6 +240,9 @@ def pc_cases(tier, seed):
         for kind in PC3_KINDS:
             out.append(("p%d" % len(out), kind, "pcorder3", "pc3 %s %d %s" % (kind, bs, fmt_crs(n2, n2, sh2)),
                         "pc3 %s %d %s" % (kind, bs, fmt_crs(n2, n2, rows2)), dict(n=n2, bs=bs)))
+        for kind in PC4_KINDS:
+            out.append(("p%d" % len(out), kind, "pcorder4", "pc4 %s %d %s" % (kind, bs, fmt_crs(n2, n2, sh2)),
+                        "pc4 %s %d %s" % (kind, bs, fmt_crs(n2, n2, rows2)), dict(n=n2, bs=bs)))
         # run-time wrapper: dyadic, strictly diagonally dominant; two (class, relaxation) pairs per matrix,
         # cycling through the whole table
         n3 = r.choice([3, 4, 6, 9])
@@ -264,6 +276,11 @@ def third_party_cases(tier, seed):
 
 
 def kind_site(kind):
+    if kind.startswith("rb_ms_"): return SITE["rb_ms"], kind[6:]
+    if kind.startswith("rb_amg"): return SITE["rb_amg"], kind[3:]
+    if kind.startswith("pu_cpr_drs"): return SITE["pu_cpr_drs"], kind[3:]
+    if kind.startswith("pu_cpr"): return SITE["pu_cpr"], kind[3:]
+    if kind.startswith(("rt_rb_amg", "rt_rb_ms_amg")): return SITE["rt_rb"], kind[3:]
     if kind.startswith("mbs_"): return SITE["mbs"], "adapter::block_matrix"
     if kind == "asp_zc_ilu0": return "relaxation::as_preconditioner(shared_ptr) via adapter::zero_copy", "ilu0"
     if kind == "cpr_zc_ilu0": return "preconditioner::cpr(shared_ptr) via adapter::zero_copy", "block scan + ilu0"
@@ -490,7 +507,7 @@ def run_pc(ctx, replay=None):
             cs.append((cid, kind, DRV_OF_OP[op], a.split(" ", 1)[1], b.split(" ", 1)[1], dict(n=0)))
     else:
         cs = pc_cases(tier, seed)
-    for drv in ("pcorder", "pcorder2", "pcorder3", "pcorder_rt"):
+    for drv in ("pcorder", "pcorder2", "pcorder3", "pcorder4", "pcorder_rt"):
         sub = [c for c in cs if c[2] == drv]
         if not sub: continue
         la = ["%sa %s" % (c[0], c[3]) for c in sub]; lb = ["%sb %s" % (c[0], c[4]) for c in sub]
